@@ -21,7 +21,7 @@ pub const SPEC: PropSpec = PropSpec {
     level: "exploration",
     rule: "Cases = (document, configuration over trim_text_start/trim_text_end/expand_empty_elements (+ defaults), source kind slice / buffered with piece size 1,3,random / async with Pending script, Start event index). At EVERY Start event of every document the reader is cloned and read_to_end / read_to_end_into / read_to_end_into_async (and read_text on the slice reader) is called on the clone; the returned span must be (end of the start tag .. '<' of the matching end tag) as computed from R_tok's literal token spans with an independent same-name depth count (empty span for an expanded empty element), the clone's next event and position must equal what follows that end tag in the uncloned run, config() must be unchanged after the call (also when it fails), and read_text must return exactly input[span]. Documents: generated well-formed documents over the names {a, b, ab} nested up to 6 deep with same-named descendants, <a/> inside <a>, comments/CDATA/PIs/attribute values containing look-alike end tags, whitespace before '>' in end tags, BOM; every truncation of each document (failure path: must be Err, config restored). Non-trivial = the skipped element has at least one same-named descendant or look-alike end tag inside.",
     assumptions: &["R_tok token spans (validated against the reader by C01/C08)", "documents are valid UTF-8 so that read_text can be compared as a string"],
-    required: &["skips.ok", "skips.same_name_nested", "skips.empty_span_expanded", "skips.failed", "config_restored_after_failure", "read_text_compared", "source.slice", "source.buffered", "source.async", "skips.with_trim_start", "skips.lookalike_inside"],
+    required: &["skips_of_the_enclosing_element_from_inside_a_child", "skips.ok", "skips.same_name_nested", "skips.empty_span_expanded", "skips.failed", "config_restored_after_failure", "read_text_compared", "source.slice", "source.buffered", "source.async", "skips.with_trim_start", "skips.lookalike_inside"],
     run,
     replay,
     thorough_layers: &[],
@@ -41,6 +41,7 @@ pub struct Local {
     trim_start: u64,
     lookalike: u64,
     max_same_depth: u64,
+    ancestor_skips: u64,
 }
 
 #[derive(Clone, Copy, Debug, PartialEq, Eq)]
@@ -212,6 +213,35 @@ fn expect_for(toks: &[Step], ti: usize, cfg: u8, input: &[u8]) -> Expect {
     Expect::Fail
 }
 
+/// read_to_end(`anc`) called right after the start-like token `ti`, where `anc` names an element that
+/// is open around it: everything up to the end tag that closes `anc` is consumed (same-named
+/// elements in between are counted), the span starts where the reader stands.
+fn expect_ancestor(toks: &[Step], ti: usize, anc: &[u8], cfg: u8) -> Expect {
+    let here = toks[ti].after;
+    if let Obs::Ev(Kind::Empty, _, n) = &toks[ti].obs {
+        // an expanded empty element still owes its End: if it bears the name, that End ends the skip
+        if &n[..] == anc {
+            return Expect::Ok { start: here, end: here, close_after: here, nested: 0, lookalike: false };
+        }
+    }
+    let mut depth = 0u64;
+    for t in &toks[ti + 1..] {
+        match &t.obs {
+            Obs::Ev(Kind::Start, _, n) if &n[..] == anc => depth += 1,
+            Obs::Ev(Kind::Empty, _, n) if cfg & C_EXPAND_EMPTY != 0 && &n[..] == anc => {}
+            Obs::Ev(Kind::End, raw, _) if trimmed_name(raw, cfg) == anc => {
+                if depth == 0 {
+                    return Expect::Ok { start: here, end: t.before, close_after: t.after, nested: 0, lookalike: false };
+                }
+                depth -= 1;
+            }
+            Obs::Err(_) => return Expect::Fail,
+            _ => {}
+        }
+    }
+    Expect::Fail
+}
+
 fn check_with<R: Rd>(mut r: R, input: &[u8], cfg: u8, kind: SrcKind, loc: &mut Local) -> Result<(), String> {
     // reference: the uncloned run of the same reader kind
     let toks = tokenize(input, CFG_NEUTRAL);
@@ -235,15 +265,21 @@ fn check_with<R: Rd>(mut r: R, input: &[u8], cfg: u8, kind: SrcKind, loc: &mut L
         .map(|(i, _)| i)
         .collect();
     let mut starts_seen = 0usize;
+    let mut open: Vec<Vec<u8>> = Vec::new();
     for i in 0..reference.len() {
         let (o, p) = r.next()?;
         if (o.clone(), p) != reference[i] {
             return Err(format!("the reader is not deterministic: call {} gave {} @{} then {} @{}", i, reference[i].0.show(), reference[i].1, o.show(), p));
         }
+        if let Obs::Ev(Kind::End, _, _) = &o {
+            open.pop();
+        }
         let name = match &o {
             Obs::Ev(Kind::Start, _, n) => n.clone(),
             _ => continue,
         };
+        let parent = open.last().cloned();
+        open.push(name.clone());
         // the token this Start came from: the k-th Start event belongs to the k-th start-like token
         // (Start tokens, and Empty tokens when they are expanded)
         let ti = match start_tokens.get(starts_seen) {
@@ -258,6 +294,39 @@ fn check_with<R: Rd>(mut r: R, input: &[u8], cfg: u8, kind: SrcKind, loc: &mut L
                 p,
                 toks[ti].after
             ));
+        }
+        // the enclosing element skipped from here (what the deserializer does when it has looked one
+        // event ahead): consumes up to the parent's end tag, the span starts at the current position
+        if let Some(anc) = &parent {
+            if let Expect::Ok { start, end, close_after, .. } = expect_ancestor(&toks, ti, anc, cfg) {
+                let mut ca = r.dup();
+                match ca.skip(anc)? {
+                    Ok(sp) if sp == (start, end) => {
+                        let k = reference.iter().enumerate().skip(i).find(|(_, (o, q))| *q == close_after && matches!(o, Obs::Ev(Kind::End, _, _)));
+                        if let Some((k, _)) = k {
+                            if let Some(follow) = reference.get(k + 1) {
+                                let (o2, p2) = ca.next()?;
+                                if (&o2, p2) != (&follow.0, follow.1) {
+                                    return Err(format!(
+                                        "after read_to_end({:?}) called from inside its child {:?} (span {}..{}) the next event is {} @{} but the uncloned run continues with {} @{}",
+                                        show(anc), show(&name), start, end, o2.show(), p2, follow.0.show(), follow.1
+                                    ));
+                                }
+                            }
+                        }
+                        loc.ancestor_skips += 1;
+                    }
+                    Ok(sp) => {
+                        return Err(format!(
+                            "read_to_end({:?}) called from inside its child {:?} (after the Start ending at {}) returned the span {}..{} but the rest of the element is {}..{} ({:?})",
+                            show(anc), show(&name), p, sp.0, sp.1, start, end, show(&input[start as usize..end as usize])
+                        ));
+                    }
+                    Err(e) => {
+                        return Err(format!("read_to_end({:?}) called from inside its child {:?} failed with {:?}; expected the span {}..{}", show(anc), show(&name), e, start, end));
+                    }
+                }
+            }
         }
         let exp = expect_for(&toks, ti, cfg, input);
         let mut c = r.dup();
@@ -523,6 +592,7 @@ fn flush(ctx: &mut Ctx, loc: &Local) {
     ctx.add("skips.with_trim_start", loc.trim_start);
     ctx.add("skips.lookalike_inside", loc.lookalike);
     ctx.max("max.same_name_nesting", loc.max_same_depth);
+    ctx.add("skips_of_the_enclosing_element_from_inside_a_child", loc.ancestor_skips);
 }
 
 fn replay(case: &Value, _ctx: &mut Ctx) -> Option<String> {
